@@ -96,7 +96,10 @@ class LiteDRAMAXI2NativeW(Module):
                 w_buffer_level.eq(w_buffer_level - 1)
             )
         ]
-        self.comb += can_write.eq(w_buffer.level > w_buffer_level)
+        # A new burst also needs room for its ID/Response (these buffers can't apply back-pressure).
+        can_respond = Signal()
+        self.comb += can_respond.eq(~aw.first | ((id_buffer.level + resp_buffer.level) < buffer_depth))
+        self.comb += can_write.eq((w_buffer.level > w_buffer_level) & can_respond)
 
         # Command ----------------------------------------------------------------------------------
         # Accept and send command to the controller only if:
@@ -168,7 +171,7 @@ class LiteDRAMAXI2NativeW(Module):
                     # Before issuing the RMW sequence, we must ensure that all pending writes/reads
                     # access have been done, so issue a request and wait for grant.
                     self.rmw_request.eq(1),
-                    If(self.rmw_rgrant & self.rmw_wgrant,
+                    If(self.rmw_rgrant & self.rmw_wgrant & can_respond,
                         NextState("READ")
                     )
                 )
